@@ -62,7 +62,10 @@ type c18Run struct {
 	Grace    int64  `json:"grace_ns"`
 	Inst     string `json:"inst"`
 	Faults   []int  `json:"faults,omitempty"`
-	Cancel   int    `json:"cancel"` // -1 = never
+	// EFaults: calls that TAKE EFFECT and then report an error (a time-out after the back-end did the work);
+	// meaningful for Delete and Store, ignored on other calls
+	EFaults []int `json:"efaults,omitempty"`
+	Cancel  int   `json:"cancel"` // -1 = never
 	// Fops: what ANOTHER actor (no storage_clean lock) does to the storage just before call number At
 	// of this run (0 = Lock); Why/Race are the generator's labels
 	Fops []c18Fop `json:"fops,omitempty"`
@@ -120,6 +123,7 @@ type c18Wrap struct {
 	tid      int
 	tr       *c18Trace
 	faults   map[int]bool
+	efaults  map[int]bool
 	cancelAt int
 	cancel   context.CancelFunc
 	n        int
@@ -221,8 +225,13 @@ func (w *c18Wrap) Stat(ctx context.Context, key string) (certmagic.KeyInfo, erro
 }
 
 func (w *c18Wrap) Delete(ctx context.Context, key string) error {
-	_, fault := w.begin()
+	idx, fault := w.begin()
 	if fault {
+		w.tr.add(c18Event{w.tid, 5, key, false})
+		return c18ErrInjected
+	}
+	if w.efaults[idx] {
+		w.inner.Delete(c18Live(ctx), key)
 		w.tr.add(c18Event{w.tid, 5, key, false})
 		return c18ErrInjected
 	}
@@ -232,9 +241,17 @@ func (w *c18Wrap) Delete(ctx context.Context, key string) error {
 }
 
 func (w *c18Wrap) Store(ctx context.Context, key string, value []byte) error {
-	_, fault := w.begin()
+	idx, fault := w.begin()
 	if fault {
 		w.tr.add(c18Event{w.tid, 6, key, false})
+		return c18ErrInjected
+	}
+	if w.efaults[idx] {
+		err := w.inner.Store(c18Live(ctx), key, value)
+		w.tr.add(c18Event{w.tid, 6, key, false})
+		if err != nil {
+			return err
+		}
 		return c18ErrInjected
 	}
 	err := w.inner.Store(c18Live(ctx), key, value)
@@ -564,9 +581,12 @@ func (m *c18Mat) execute(spec c18Spec) *c18Exec {
 	}
 	mk := func(i int) *c18Wrap {
 		r := spec.Runs[i]
-		w := &c18Wrap{inner: be.storage(), tid: i, tr: tr, faults: map[int]bool{}, cancelAt: r.Cancel, gateAt: -1}
+		w := &c18Wrap{inner: be.storage(), tid: i, tr: tr, faults: map[int]bool{}, efaults: map[int]bool{}, cancelAt: r.Cancel, gateAt: -1}
 		for _, f := range r.Faults {
 			w.faults[f] = true
+		}
+		for _, f := range r.EFaults {
+			w.efaults[f] = true
 		}
 		if len(r.Fops) > 0 {
 			w.foreign = func(idx int) {
@@ -851,6 +871,10 @@ func (ex *c18Exec) encode() (wire string, obs map[string]any, feats map[string]s
 		pstr(rs.Inst)
 		e.Len(len(rs.Faults))
 		for _, f := range rs.Faults {
+			e.Int(f)
+		}
+		e.Len(len(rs.EFaults))
+		for _, f := range rs.EFaults {
 			e.Int(f)
 		}
 		if rs.Cancel < 0 {
@@ -1448,6 +1472,22 @@ func c18Corpus() []struct {
 			class string
 			spec  c18Spec
 		}{"corpus_folder_delete_fails", c18Spec{Backend: "fs", Items: its, Runs: []c18Run{r}}})
+		// the same Delete takes effect but reports an error (a time-out after the fact): the folder is gone,
+		// deleteExpiredCerts returns all the same
+		r2 := c18Run{Certs: true, Grace: 0, Cancel: -1, Inst: "corpus", EFaults: []int{10}}
+		out = append(out, struct {
+			class string
+			spec  c18Spec
+		}{"corpus_folder_delete_effect_then_error", c18Spec{Backend: "fs", Items: its, Runs: []c18Run{r2}}})
+		// the Store of the record takes effect but reports an error: CleanStorage returns the error, the record
+		// is there; a second cleaning within the interval skips
+		one := full("iss", "a-dead.example", -30*day)
+		r3 := c18Run{Certs: true, Grace: 0, Cancel: -1, Inst: "corpus", EFaults: []int{11}}
+		r4 := c18Run{Certs: true, OCSP: true, Grace: 0, Cancel: -1, Inst: "second", Interval: int64(2 * time.Hour)}
+		out = append(out, struct {
+			class string
+			spec  c18Spec
+		}{"corpus_record_effect_then_error", c18Spec{Backend: "fs", Items: one, Runs: []c18Run{r3, r4}}})
 	}
 	// two concurrent cleaners, second one must wait and then skip / clean again
 	items := append(full("iss", "dead.example", -30*day), full("iss", "live.example", 30*day)...)
@@ -1632,6 +1672,9 @@ func runC18(tier string, seed int64, outdir string, replay string) error {
 				if g.r.Intn(4) == 0 && at > 0 {
 					sp.Runs[0].Cancel = at
 					w.Hist("env=aimed_cancel:" + name)
+				} else if (k == 5 || k == 6 || k == 7 || k == 9) && g.r.Intn(2) == 0 {
+					sp.Runs[0].EFaults = []int{at} // the call takes effect, then reports an error
+					w.Hist("env=aimed_efault:" + name)
 				} else {
 					sp.Runs[0].Faults = []int{at}
 					w.Hist("env=aimed_fault:" + name)
